@@ -129,7 +129,7 @@ class SanitizeTag(Tag):
     require_context = True
 
     def process(self, file: File, context: Optional[str]) -> str:
-        assert context
+        assert context is not None
         return str(pathvalidate.sanitize_filepath(context))
 
 
